@@ -112,3 +112,26 @@ Definition host_without_port (h : str) : str :=
     | None => h
     end
   end.
+
+(** Well-formed Host header: host, host:port, [v6], [v6]:port — port: digits;
+    host: non-empty, no ':' '[' ']'; v6: contains ':' and no brackets. *)
+Definition wf_host (h : str) : bool :=
+  match h with
+  | [] => false
+  | x5b :: r =>
+    match index_byte r x5d with
+    | Some e =>
+      negb (contains_byte (firstn e r) x5b) && contains_byte (firstn e r) colon &&
+      match skipn (S e) r with
+      | [] => true
+      | c :: port => byte_eqb c colon && forallb is_digit port
+      end
+    | None => false
+    end
+  | _ =>
+    negb (contains_byte h x5b) && negb (contains_byte h x5d) &&
+    match index_byte h colon with
+    | None => true
+    | Some i => negb (Nat.eqb i 0) && forallb is_digit (skipn (S i) h)
+    end
+  end.
